@@ -23,7 +23,7 @@ except ImportError:                    # pragma: no cover
 import z3
 
 from .strings import Atom, Undetermined, XStr
-from .values import EngineError, SList
+from .values import EngineError, SList, mk_bool as V_mk_bool
 
 LITERAL, NOT_LITERAL, ANY, IN = _sc.LITERAL, _sc.NOT_LITERAL, _sc.ANY, _sc.IN
 MAX_REPEAT, MIN_REPEAT, SUBPATTERN, BRANCH, AT = (_sc.MAX_REPEAT, _sc.MIN_REPEAT, _sc.SUBPATTERN,
@@ -126,7 +126,7 @@ class Matcher:
         i, off = pos
         while i < self.n:
             g, p = self.segs[i]
-            if isinstance(p, str) and off >= len(p):
+            if isinstance(p, str) and off >= len(p):   # (also skips pieces resolved to '')
                 i, off = i + 1, 0
                 continue
             break
@@ -300,6 +300,22 @@ class Matcher:
             return nxt(pos, caps)
         return None
 
+    def resolve_guards(self):
+        """Replace guards that the path condition decides by True / drop the piece.  Positions
+        are segment indices, so dropped pieces become empty literals (skipped by norm)."""
+        ctx = self.it.ctx
+        changed = False
+        for i, (g, p) in enumerate(self.segs):
+            if g is True:
+                continue
+            if not ctx.feasible(z3.Not(g)):
+                self.segs[i] = (True, p)
+                changed = True
+            elif not ctx.feasible(g):
+                self.segs[i] = (True, '')
+                changed = True
+        return changed
+
     def run(self, op, av, lo, hi, pos, caps, nxt, rest):
         """Greedy repeat of one single-character item."""
         ctx = self.it.ctx
@@ -356,7 +372,13 @@ class Matcher:
                 if ctx.feasible(total > hi):
                     if self.impossible(rest, pos):
                         return None
-                    raise Undetermined('bounded repeat over segments of unknown length')
+                    # case split: either the run is within the bound, or it is longer -- then
+                    # resolve the guards of the pieces with the (stronger) path condition and
+                    # match again on the more concrete subject
+                    if ctx.decide(V_mk_bool(total > hi)) and self.resolve_guards():
+                        return self.run(op, av, lo, hi, pos, caps, nxt, rest)
+                    if ctx.feasible(total > hi):
+                        raise Undetermined('bounded repeat over segments of unknown length')
             if lo > 0 and ctx.feasible(total < lo):
                 if not ctx.feasible(total >= lo):
                     return None
